@@ -52,6 +52,15 @@ pub fn execute(bin: &Path, scratch: &Scratch, case: &Case) -> Result<Vec<RunReco
     let mut world = case.world.clone();
     let mut recs = Vec::new();
     for (i, inv) in case.invs.iter().enumerate() {
+        // the user edits files between invocations
+        if i > 0 && !inv.pre_edits.is_empty() {
+            for (p, bytes) in &inv.pre_edits {
+                if world.files.contains_key(p) {
+                    std::fs::write(scratch.world_root().join(p), bytes).map_err(|e| format!("pre-edit {p}: {e}"))?;
+                    world.files.insert(p.clone(), bytes.clone());
+                }
+            }
+        }
         let mut run = run_inv(bin, scratch, &world, inv, i == 0)?;
         if let Some(h) = oracle::harness_problem(&run) {
             // infrastructure failures are retried once (a run is a pure function of its plan)
